@@ -170,7 +170,15 @@ def what(tag, toks, d):
 
 if __name__ == "__main__":
     ctx = Ctx("C11")
-    ctx.assumptions = []
+    ctx.assumptions = [
+        "one harness operation = one atomic step of the model: the harness waits for quiescence (synctest.Wait) between stimuli; concurrent requests racing on r.mx are NOT generated (the decisive sections of handleReserve/handleConnect/cleanup run under r.mx; the one cross-goroutine race that matters, RESERVE vs. the peer's own disconnect, is forced through the ACL callback)",
+        "Go maps are total functions peer -> value; Go int/int64 are unbounded Z; time is virtual (testing/synctest), in ms since Relay creation, and collections happen exactly at the ticks of the one-minute ticker",
+        "the connection manager is the real BasicConnMgr: a peer's tags disappear with its last connection (so disconnected() not untagging is not observable: candidate 9b of DESIGN section 9 dismissed); the resource manager is the real rcmgr with a limit on the relay service scope only; rcmgr's checkMemory formula ((1+prio)*limit/256) is transcribed, priorities re-read from the source",
+        "mocknet streams ignore deadlines and have no scopes: the relay's streams are wrapped by the harness (deadline-honouring Read, real rcmgr stream scope opened/closed like the swarm does, WithNoDial honoured); yamux/QUIC stream deadlines themselves are not exercised",
+        "a half-closed circuit whose remaining direction flows TOWARDS an endpoint that reset/disconnected is kept by the code until the next write or the deadline (the relay only notices on the side it reads from); the model tears it down at once and the generator never produces that state (safeToDrop)",
+        "cryptography (record.Seal / ConsumeEnvelope) enters through the correspondence only: every granted voucher is verified with the real code against the relay's key; the model states the fields",
+        "hypotheses forced by the proofs: c11_caps_respected_partial needs every RESERVE of a peer to come from one address (otherwise refuted: known finding); c11_gone_on_disconnect_partial needs no RESERVE racing with the peer's disconnect (otherwise refuted: known finding); 0 <= ttl and 0 <= caps",
+    ]
     standard_flow(ctx, dict(
         consts=consts,
         coq_targets=["c11/Properties.vo", "c11/Extract.vo"],
@@ -178,6 +186,16 @@ if __name__ == "__main__":
         spec_module="c11.Spec",
         harness=harness, replay_harness=replay_harness, warm=warm,
         nontrivial=nontrivial,
-        rule="TODO",
+        rule="4 directed histories (refused refresh through the per-IP and the per-ASN cap, data around the limit + duration limit, "
+             "RESERVE racing with disconnect) and seeded random histories (600 quick / 2400 thorough, 20-60 ops) over 3-5 peers with two source "
+             "addresses each (shared IPv4 addresses, IPv6 addresses in two real ASNs, ASN-less IPv6, relayed /p2p-circuit addresses, DNS addresses), "
+             "small caps (MaxReservations 2-4, per-IP 1-2, per-ASN 1-3, MaxCircuits 1-2), rcmgr service limits that bind at 1-3 circuits: "
+             "open/close connections, RESERVE (ACL allow/deny, disconnect injected while the ACL is consulted), CONNECT (stop handler: ok, reset, "
+             "malformed, non-OK status, wrong type, silent until HandshakeTimeout, stop stream cannot be opened, EOF; source: malformed peer id, "
+             "disconnects before the response, wrong message type, silent until StreamTimeout), payloads of limit-1/limit/limit+1/limit+50 bytes per "
+             "direction, half-close, reset, time steps around TTL / gc ticks / duration limit, Relay.Close. After every op at quiescence: statuses "
+             "seen by the client and recorded by the relay, voucher checked with the real crypto, Relay.rsvp/conns, constraints.total/ips/asns, "
+             "connmgr tags, service-scope Stat(), bytes/EOF seen by both endpoints of every circuit. Everything is compared with the Coq model "
+             "(conform_case) and judged by the property monitor (monitor_case). Non-trivial = a circuit was granted.",
         describe=describe, key=key, what=what, crosscheck=40,
     ))
